@@ -99,11 +99,13 @@ InvokeFinish(s, owned) ==
     [s |-> n, push |-> (n.enq /\ ~Sub(s, owned).enq)]
 
 (* ---- _dispatch_queue_wakeup rmw (target = TARGET) ---- *)
-Wakeup(s, makeDirty) ==
-    LET a == MergeQos(s, QW)
+\* q = _dispatch_queue_wakeup_qos(dq, 0): QW once the queue's priority is known (0 before an inactive queue is activated)
+WakeupQ(s, makeDirty, q) ==
+    LET a == MergeQos(s, q)
         b == IF ~Suspended(s) /\ ~s.enq /\ ~Locked(s) THEN [a EXCEPT !.enq = TRUE] ELSE a
         n == IF makeDirty THEN [b EXCEPT !.dirty = TRUE] ELSE b IN
     [changed |-> (makeDirty \/ n # s), s |-> n, push |-> (n.enq /\ ~s.enq)]
+Wakeup(s, makeDirty) == WakeupQ(s, makeDirty, QW)
 
 (* ---- _dispatch_lane_push_waiter rmw (waiter made the list non-empty), qos = 0 ---- *)
 PushWaiter(s, self) ==
